@@ -631,7 +631,19 @@ impl Server {
         let mut did_work = false;
         
         // Get all connection IDs, filtering out blocked connections for performance
-        let conn_ids: Vec<u64> = self.connections.all_connection_ids()
+        let all_ids = self.connections.all_connection_ids();
+        
+        // A blocked connection is not read, so its disconnect would go unnoticed and its
+        // registration would wait for (and swallow) elements forever: look at the socket
+        for &id in &all_ids {
+            self.connections.with_connection(id, |conn| {
+                if matches!(conn.state, ConnectionState::Blocked(_)) && conn.peer_closed() {
+                    conn.state = ConnectionState::Closing;
+                }
+            });
+        }
+        
+        let conn_ids: Vec<u64> = all_ids
             .into_iter()
             .filter(|&id| !self.is_connection_blocked(id))
             .collect();
